@@ -44,10 +44,13 @@ LnL(es, cells, coef, counts, total, d0, gamma, alpha) ==
   IN FSum([q \in 1..Len(cells) |-> term(q)])
 Grid == <<"1e-08", "1e-06", "1e-04", "0.001", "0.003", "0.01", "0.02", "0.05", "0.1", "0.15", "0.2", "0.3", "0.4", "0.5", "0.7", "1", "1.4", "2", "3", "4.5", "7", "10", "14", "20">>
 \* is d* a maximiser among nearby and grid distances?
+\* [near, grid]: no nearby distance, resp. no grid distance, has a higher likelihood (beyond the tolerance)
 Maximises(es, cells, counts, total, dstar, gamma, alpha) ==
   LET coef == Coefs(es, cells)
       best == LnL(es, cells, coef, counts, total, dstar, gamma, alpha)
       tol == FMul(FParse("1e-7"), FMax(FInt(1), FAbs(best)))
-      cand == [k \in 1..4 |-> FMul(dstar, FParse(<<"0.999", "1.001", "0.99", "1.01">>[k]))] \o [k \in 1..Len(Grid) |-> FParse(Grid[k])]
-  IN \A k \in 1..Len(cand) : FLe(LnL(es, cells, coef, counts, total, cand[k], gamma, alpha), FAdd(best, tol))
+      near == [k \in 1..4 |-> FMul(dstar, FParse(<<"0.999", "1.001", "0.99", "1.01">>[k]))]
+      grid == [k \in 1..Len(Grid) |-> FParse(Grid[k])]
+      ok(c) == \A k \in 1..Len(c) : FLe(LnL(es, cells, coef, counts, total, c[k], gamma, alpha), FAdd(best, tol))
+  IN [near |-> ok(near), grid |-> ok(grid)]
 =============================================================================
